@@ -1,6 +1,7 @@
 //! Replays concrete inputs against the REAL crate (path dependency on /repo).
 //!   coset-replay finding <id>     exit 1 + "MANIFESTS ..." if the listed known finding still shows on the current tree, else exit 0
 //!   coset-replay probe <property> deterministic probe set compared with an independent mini CBOR model; prints the first failing input, exit 1
+mod probes;
 use ciborium::value::Value;
 use coset::{iana, AsCborValue, CborSerializable, CborOrdering, Label};
 
@@ -8,7 +9,7 @@ fn hex(b: &[u8]) -> String { b.iter().map(|x| format!("{:02x}", x)).collect() }
 fn unhex(s: &str) -> Vec<u8> { (0..s.len() / 2).map(|i| u8::from_str_radix(&s[2 * i..2 * i + 2], 16).unwrap()).collect() }
 
 /// independent reader: top-level map keys of a definite-length CBOR map, as raw encoded byte strings
-fn map_key_encodings(b: &[u8]) -> Option<Vec<Vec<u8>>> {
+pub fn map_key_encodings(b: &[u8]) -> Option<Vec<Vec<u8>>> {
     fn item_len(b: &[u8]) -> Option<usize> {
         let ib = *b.first()?;
         let (major, info) = (ib >> 5, ib & 0x1f);
@@ -85,10 +86,11 @@ fn head(major: u8, n: usize) -> Vec<u8> {
     else { let mut v = vec![m | 26]; v.extend_from_slice(&(n as u32).to_be_bytes()); v }
 }
 /// COSE_Sign1 whose protected header nests `depth` further protected headers through counter signatures
-fn nested_protected(depth: usize) -> Vec<u8> {
+fn nested_protected(depth: usize, array_form: bool) -> Vec<u8> {
     let mut inner: Vec<u8> = vec![0xa0];
     for _ in 0..depth {
-        let mut m = vec![0xa1, 0x07, 0x83];
+        // single counter signature {7: sig} or array form {7: [sig]}
+        let mut m = if array_form { vec![0xa1, 0x07, 0x81, 0x83] } else { vec![0xa1, 0x07, 0x83] };
         m.extend(head(2, inner.len())); m.extend(&inner);
         m.push(0xa0); m.push(0x40);
         inner = m;
@@ -116,12 +118,13 @@ fn nested_unprotected(depth: usize) -> Vec<u8> {
 fn c01_measure() -> i32 {
     let h = std::thread::Builder::new().stack_size(2 * 1024 * 1024).spawn(|| {
         let mut bad = 0;
-        for (d, want_ok) in [(15usize, true), (16, false), (3000, false), (100000, false)] {
-            let b = nested_protected(d);
+        for (d, want_ok, arr) in [(15usize, true, false), (16, false, false), (3000, false, false), (100000, false, false),
+                                   (15, true, true), (16, false, true), (3000, false, true), (100000, false, true)] {
+            let b = nested_protected(d, arr);
             let t = std::time::Instant::now();
             let r = coset::CoseSign1::from_slice(&b);
             let el = t.elapsed();
-            println!("protected nesting {:6} ({} bytes): ok={} in {:?}", d, b.len(), r.is_ok(), el);
+            println!("protected nesting {:6} {} ({} bytes): ok={} in {:?}", d, if arr { "array-form" } else { "single-form" }, b.len(), r.is_ok(), el);
             if r.is_ok() != want_ok || el.as_secs() >= 2 { bad += 1; }
             if let Ok(v) = r { let c = v.clone(); let _ = c == v; let e = v.to_vec().unwrap(); if e != b { bad += 1; } let _ = c.tbs_data(b"aad"); }
         }
@@ -142,6 +145,18 @@ fn main() {
     let rc = match a.get(1).map(|s| s.as_str()) {
         Some("finding") => finding(a.get(2).map(|s| s.as_str()).unwrap_or("")),
         Some("c01-measure") => c01_measure(),
+        Some("probe") => match a.get(2).map(|s| s.as_str()) {
+            Some("structures") => probes::probe_structures(),
+            Some("headers") => probes::probe_headers(),
+            Some("framing") => probes::probe_framing(),
+            Some("integers") => probes::probe_integers(),
+            Some("order") => probes::probe_order(),
+            Some("keys") => probes::probe_keys(),
+            Some("claims") => probes::probe_claims(),
+            Some("builders") => probes::probe_builders(),
+            Some("roundtrip") => probes::probe_roundtrip(),
+            _ => { eprintln!("unknown probe"); 2 }
+        },
         _ => { eprintln!("usage: coset-replay finding <id>"); 2 }
     };
     let _ = (Label::Int(0), <Value as AsCborValue>::from_cbor_value(Value::Null));
